@@ -21,7 +21,7 @@ def runS (cfgs : List String) (ops : List (List String)) : String :=
   let copy := kv cfgs "copy" != some "0"
   let cap := (kv cfgs "cap").bind num?
   let data := ((kv cfgs "data").bind hexBytes?).getD []
-  let m3 := machL3 e ww rw bitReader strict checks cap copy (ww / 8)
+  let m3 := machL3 e ww rw bitReader strict checks cap copy 8
   let m1 := machL1 e ww rw bitReader strict checks cap
   let s3 : Sess (BufW ww) (RState rw) :=
     { w := BufW.new ww checks cap, r := m3.mkReader data, r2 := m3.mkReader data }
